@@ -1073,8 +1073,14 @@ func (f *STFS) Chown(name string, uid, gid int) error {
 		}
 	}
 
-	hdr.Uid = uid
-	hdr.Gid = gid
+	// As with `chown(2)`, -1 leaves the owner or group as it is
+	if uid != -1 {
+		hdr.Uid = uid
+	}
+
+	if gid != -1 {
+		hdr.Gid = gid
+	}
 
 	return f.updateMetadata(hdr)
 }
